@@ -97,20 +97,20 @@ def run(ctx):
             for ack in (False, True):
                 a = rng.choice(addrs)
                 txt = rng.choice(texts).encode("utf-16-le")
-                observe("tms", lambda: T.TextMessagingService(first_header=T.FirstHeader(is_acknowledged=ack, pdu_type=T.TMSPDUType.SIMPLE_TEXT_MESSAGE),
+                observe("tms", lambda: T.TextMessagingService(first_header=T.FirstHeader(has_more_headers=bool(rng.getrandbits(1)), is_acknowledged=ack, pdu_type=T.TMSPDUType.SIMPLE_TEXT_MESSAGE),
                                                               address=a, sequence_number=sn, encoding=enc, message=txt))
-            observe("tms", lambda: T.TextMessagingService(first_header=T.FirstHeader(pdu_type=T.TMSPDUType.TMS_ACKNOWLEDGEMENT),
+            observe("tms", lambda: T.TextMessagingService(first_header=T.FirstHeader(has_more_headers=bool(rng.getrandbits(1)), pdu_type=T.TMSPDUType.TMS_ACKNOWLEDGEMENT),
                                                           address=rng.choice(addrs), sequence_number=sn))
     for a in addrs:
         for txt in texts:
-            observe("tms", lambda: T.TextMessagingService(first_header=T.FirstHeader(pdu_type=T.TMSPDUType.SIMPLE_TEXT_MESSAGE, is_reserved=bool(rng.getrandbits(1))),
+            observe("tms", lambda: T.TextMessagingService(first_header=T.FirstHeader(has_more_headers=bool(rng.getrandbits(1)), pdu_type=T.TMSPDUType.SIMPLE_TEXT_MESSAGE, is_reserved=bool(rng.getrandbits(1))),
                                                           address=a, sequence_number=rng.randrange(128), encoding=T.TMSEncoding.UCS2_LE,
                                                           message=txt.encode("utf-16-le")))
         for cap in [None] + list(T.TMSDeviceCapability):
             for ack in (False, True):
-                observe("tms", lambda: T.TextMessagingService(first_header=T.FirstHeader(is_acknowledged=ack, pdu_type=T.TMSPDUType.SERVICE_AVAILABILITY),
+                observe("tms", lambda: T.TextMessagingService(first_header=T.FirstHeader(has_more_headers=bool(rng.getrandbits(1)), is_acknowledged=ack, pdu_type=T.TMSPDUType.SERVICE_AVAILABILITY),
                                                               address=a, availability_header=T.AvailabilitySecondHeader(cap) if cap else None))
-        observe("tms", lambda: T.TextMessagingService(first_header=T.FirstHeader(pdu_type=T.TMSPDUType.TMS_ACKNOWLEDGEMENT), address=a))
+        observe("tms", lambda: T.TextMessagingService(first_header=T.FirstHeader(has_more_headers=bool(rng.getrandbits(1)), pdu_type=T.TMSPDUType.TMS_ACKNOWLEDGEMENT), address=a))
     # ---- ARS
     strs = ["", "a", "1234567", "uživatel-中文-x", "p" * 255, "é" * 127] + EDGED
     P = A.ARSPDUType
